@@ -171,14 +171,45 @@ theorem bds60_ias : ∀ s v, v < 2 ^ 10 → iasOk s v = true := enum2 _ 10 (by d
 /-- `read_vertical`, all 2^11 codes -/
 theorem bds60_vertical : ∀ s g v, g < 2 ^ 1 → v < 2 ^ 9 → verticalOk s g v = true := enum3 _ 1 9 (by decide +kernel)
 
-/-- airspeeds `read_mach` is checked against here: absent, and values around both thresholds (`ias > 250`, `ias < 150`) -/
-def machIas : List (Option Nat) := [none, some 1, some 149, some 150, some 151, some 250, some 251, some 500]
-
-/-- `read_mach` for the airspeeds of `machIas`, all 2^11 codes each (exact-rational reading of the f64 arithmetic:
-    `2.048` is the decimal, see `Model.Bds60.F64.thresholds_agree` for the IEEE comparisons) -/
-theorem bds60_mach_partial : ∀ s v, v < 2 ^ 10 → (machIas.all fun i => machOk i s v) = true :=
+/-- `read_mach` with the airspeed absent / below 150 / in 150..250 / above 250 (representatives 1, 150, 251), all 2^11
+    codes each (exact-rational reading of the f64 arithmetic: `2.048` is the decimal; see
+    `Model.Bds60.F64.thresholds_agree` for the IEEE comparisons) -/
+theorem bds60_mach_rep : ∀ s v, v < 2 ^ 10 →
+    (machOk none s v && machOk (some 1) s v && machOk (some 150) s v && machOk (some 251) s v) = true :=
   enum2 _ 10 (by decide +kernel)
 
+set_option linter.unusedSimpArgs false in
+/-- the translated `read_mach` depends on the airspeed only through `ias > 250` and `ias < 150` -/
+theorem gen_mach_class (i i' : Nat) (h1 : i > 250 ↔ i' > 250) (h2 : i < 150 ↔ i' < 150) (s : Bool) (v : Nat) :
+    Gen.BdsFns.Bds60.read_mach (some i) s v = Gen.BdsFns.Bds60.read_mach (some i') s v := by
+  have h1' : 250 < i ↔ 250 < i' := h1
+  simp only [Gen.BdsFns.Bds60.read_mach, gt_iff_lt, h1', h2]
+
+/-- so does the model's `mach` -/
+theorem model_mach_class (i i' : Nat) (h1 : i > 250 ↔ i' > 250) (h2 : i < 150 ↔ i' < 150) (s : Bool) (v : Nat) :
+    Model.Bds60.mach (some i) s v = Model.Bds60.mach (some i') s v := by
+  have h1' : 250 < i ↔ 250 < i' := h1
+  simp only [Model.Bds60.mach, gt_iff_lt, h1', h2]
+
+/-- **`read_mach`, every airspeed (any `u16`, in fact any natural) or none, all 2^11 codes**: Mach = code / 250 -/
+theorem bds60_mach (i : Option Nat) : ∀ s v, v < 2 ^ 10 → machOk i s v = true := by
+  intro s v hv
+  have h := bds60_mach_rep s v hv
+  simp only [Bool.and_eq_true] at h
+  obtain ⟨⟨⟨h0, ha⟩, hb⟩, hc⟩ := h
+  cases i with
+  | none => exact h0
+  | some i =>
+    have transfer : ∀ k : Nat, (i > 250 ↔ k > 250) → (i < 150 ↔ k < 150) → machOk (some k) s v = true →
+        machOk (some i) s v = true := by
+      intro k a b hk
+      simp only [machOk, decide_eq_true_eq] at hk ⊢
+      rw [gen_mach_class i k a b, model_mach_class i k a b, hk]
+    by_cases c1 : i < 150
+    · exact transfer 1 (by omega) (by omega) ha
+    · by_cases c2 : i > 250
+      · exact transfer 251 (by omega) (by omega) hc
+      · exact transfer 150 (by omega) (by omega) hb
 
 /-! ### the obligations as stated in Props/C03.lean, Props/C08.lean -/
 
@@ -206,25 +237,21 @@ theorem bds50_tas_sampled : ∀ gs ∈ tasGs, ∀ s v, v < 2 ^ 10 →
   rw [List.all_eq_true] at h
   simpa [tasOk] using h gs hgs
 
-/-- BDS 6,0: heading, IAS and both vertical rates -/
+/-- BDS 6,0: heading, IAS, Mach (for every airspeed) and both vertical rates -/
 theorem bds60_readers :
     (∀ s g v, g < 2 ^ 1 → v < 2 ^ 10 →
       Gen.BdsFns.Bds60.read_heading s g v = scaled 1 512 (Model.Bds60.heading s g v)) ∧
     (∀ s v, v < 2 ^ 10 →
       Gen.BdsFns.Bds60.read_ias s v = Model.Bds60.ias s v) ∧
+    (∀ (i : Option Nat) s v, v < 2 ^ 10 →
+      Gen.BdsFns.Bds60.read_mach i s v = scaledN 1 250 (Model.Bds60.mach i s v)) ∧
     (∀ s g v, g < 2 ^ 1 → v < 2 ^ 9 →
       Gen.BdsFns.Bds60.read_vertical s g v = Model.Bds60.vertical s g v) := by
-  refine ⟨fun s g v hg hv => ?_, fun s v hv => ?_, fun s g v hg hv => ?_⟩
+  refine ⟨fun s g v hg hv => ?_, fun s v hv => ?_, fun i s v hv => ?_, fun s g v hg hv => ?_⟩
   · simpa [headingOk] using bds60_heading s g v hg hv
   · simpa [iasOk] using bds60_ias s v hv
+  · simpa [machOk] using bds60_mach i s v hv
   · simpa [verticalOk] using bds60_vertical s g v hg hv
-
-theorem bds60_mach_sampled : ∀ i ∈ machIas, ∀ s v, v < 2 ^ 10 →
-    Gen.BdsFns.Bds60.read_mach i s v = scaledN 1 250 (Model.Bds60.mach i s v) := by
-  intro i hi s v hv
-  have h := bds60_mach_partial s v hv
-  rw [List.all_eq_true] at h
-  simpa [machOk] using h i hi
 
 /-! ### counterexample listing (not part of the check; `#eval Rs1090.Proofs.GenBds.disagreements`) -/
 
@@ -240,7 +267,7 @@ def disagreements : List (String × Bool × Nat × Nat) :=
   ((codes3 0 10).filter fun (s, _, v) => !(tasGs.all fun gs => tasOk gs s v)).map (fun c => ("bds50.read_tas", c)) ++
   ((codes3 1 10).filter fun (s, g, v) => !headingOk s g v).map (fun c => ("bds60.read_heading", c)) ++
   ((codes3 0 10).filter fun (s, _, v) => !iasOk s v).map (fun c => ("bds60.read_ias", c)) ++
-  ((codes3 0 10).filter fun (s, _, v) => !(machIas.all fun i => machOk i s v)).map (fun c => ("bds60.read_mach", c)) ++
+  ((codes3 0 10).filter fun (s, _, v) => !(machOk none s v && machOk (some 1) s v && machOk (some 150) s v && machOk (some 251) s v)).map (fun c => ("bds60.read_mach", c)) ++
   ((codes3 1 9).filter fun (s, g, v) => !verticalOk s g v).map (fun c => ("bds60.read_vertical", c))
 
 end Rs1090.Proofs.GenBds
